@@ -82,9 +82,9 @@ Model/ParseRun.vos Model/ParseRun.vok Model/ParseRun.required_vos: Model/ParseRu
 Run/RunC10.vo Run/RunC10.glob Run/RunC10.v.beautified Run/RunC10.required_vo: Run/RunC10.v Base.vo Prim.vo Model/Parse.vo Model/ParseRun.vo Run/RunBase.vo
 Run/RunC10.vio: Run/RunC10.v Base.vio Prim.vio Model/Parse.vio Model/ParseRun.vio Run/RunBase.vio
 Run/RunC10.vos Run/RunC10.vok Run/RunC10.required_vos: Run/RunC10.v Base.vos Prim.vos Model/Parse.vos Model/ParseRun.vos Run/RunBase.vos
-Properties/C10.vo Properties/C10.glob Properties/C10.v.beautified Properties/C10.required_vo: Properties/C10.v Base.vo Prim.vo
-Properties/C10.vio: Properties/C10.v Base.vio Prim.vio
-Properties/C10.vos Properties/C10.vok Properties/C10.required_vos: Properties/C10.v Base.vos Prim.vos
+Properties/C10.vo Properties/C10.glob Properties/C10.v.beautified Properties/C10.required_vo: Properties/C10.v Base.vo Prim.vo Model/Digit.vo Model/Core.vo Model/Shift.vo Model/AddSub.vo Model/Bits.vo Model/Parse.vo Proofs/ParseSpec.vo Proofs/ParseLoops.vo Proofs/ParseDeps.vo Proofs/Parse.vo
+Properties/C10.vio: Properties/C10.v Base.vio Prim.vio Model/Digit.vio Model/Core.vio Model/Shift.vio Model/AddSub.vio Model/Bits.vio Model/Parse.vio Proofs/ParseSpec.vio Proofs/ParseLoops.vio Proofs/ParseDeps.vio Proofs/Parse.vio
+Properties/C10.vos Properties/C10.vok Properties/C10.required_vos: Properties/C10.v Base.vos Prim.vos Model/Digit.vos Model/Core.vos Model/Shift.vos Model/AddSub.vos Model/Bits.vos Model/Parse.vos Proofs/ParseSpec.vos Proofs/ParseLoops.vos Proofs/ParseDeps.vos Proofs/Parse.vos
 Proofs/ParseSpec.vo Proofs/ParseSpec.glob Proofs/ParseSpec.v.beautified Proofs/ParseSpec.required_vo: Proofs/ParseSpec.v Base.vo
 Proofs/ParseSpec.vio: Proofs/ParseSpec.v Base.vio
 Proofs/ParseSpec.vos Proofs/ParseSpec.vok Proofs/ParseSpec.required_vos: Proofs/ParseSpec.v Base.vos
